@@ -395,6 +395,18 @@ func (c *c39Case) commonVariants() {
 		c.reject("extended-sig", k, msg, append(append([]byte{}, sig...), sig...))
 		c.reject("extended-sig", k, msg, append(append([]byte{}, sig...), rng.Bytes(rr, 1+rr.Intn(40))...))
 	}
+	// the message/signature boundary moved: the same concatenated bytes, split elsewhere (after the genuine pair has been
+	// verified in this process; anything that remembers verified inputs must remember where each one ends)
+	if k.kind != "multisig" {
+		for _, n := range []int{1, 2 + rr.Intn(7)} {
+			if len(msg) >= n {
+				c.reject("boundary-shifted", k, msg[:len(msg)-n], append(append([]byte{}, msg[len(msg)-n:]...), sig...))
+			}
+			if len(sig) > n {
+				c.reject("boundary-shifted", k, append(append([]byte{}, msg...), sig[:n]...), sig[n:])
+			}
+		}
+	}
 	// signature over another message entirely
 	other := rng.Bytes(rr, 1+rr.Intn(64))
 	if !bytes.Equal(other, msg) {
@@ -1019,7 +1031,7 @@ func (c *c39Case) run() string {
 
 func checkC39(r *ev.Run) {
 	n := r.N(3000, 300000)
-	r.Rule("case i: key of kind i%3 (ed25519 from a PRNG seed / secp256k1 from a PRNG scalar / multisig of 2-8 distinct members of mixed types, a member being a nested 2-3 member multisig with probability 1/5, depth <= 2) signs a generated message (empty, 1 byte, 2-120 bytes, 200-2200 bytes, constant runs) with the real code. Judged: own signature verifies under the real key and under the independent verifier (crypto/ed25519; crypto/ecdsa over secp256k1 + low-S + 64-byte rule; strict reader of the multisig layout recursing into members); every variant (single-byte/bit signature changes, message substitution/insertion/deletion, truncated, extended, signature of another message, other key of either type, garbage key bytes, key one byte off; multisig: permuted, missing, blanked, duplicated member signatures, member signed something else, nested permuted/missing, member list reordered/replaced/extended/shortened, amino container with unknown field / disambiguation prefix / non-minimal length) is rejected without panic; public keys survive raw-bytes, hex, amino, amino-JSON and encoding/json round trips (type, bytes, address, Equals, still verifies), private keys raw/hex/amino; NewPublicKeyBz/NewPrivateKeyBz pick the type by length and refuse other lengths. AddSignature by key and out-of-order AddSignatureByIndex are recorded, not judged. The reference verifier is consulted on the own signature, on every variant the real code accepts, and on the first and every 4th rejected variant. Non-trivial = own signature accepted by real code and reference AND at least one variant rejected by both; distinct = digest of key material and message.")
+	r.Rule("case i: key of kind i%3 (ed25519 from a PRNG seed / secp256k1 from a PRNG scalar / multisig of 2-8 distinct members of mixed types, a member being a nested 2-3 member multisig with probability 1/5, depth <= 2) signs a generated message (empty, 1 byte, 2-120 bytes, 200-2200 bytes, constant runs) with the real code. Judged: own signature verifies under the real key and under the independent verifier (crypto/ed25519; crypto/ecdsa over secp256k1 + low-S + 64-byte rule; strict reader of the multisig layout recursing into members); every variant (single-byte/bit signature changes, message substitution/insertion/deletion, truncated, extended, message/signature boundary shifted by 1-8 bytes after the genuine pair was verified, signature of another message, other key of either type, garbage key bytes, key one byte off; multisig: permuted, missing, blanked, duplicated member signatures, member signed something else, nested permuted/missing, member list reordered/replaced/extended/shortened, amino container with unknown field / disambiguation prefix / non-minimal length) is rejected without panic; public keys survive raw-bytes, hex, amino, amino-JSON and encoding/json round trips (type, bytes, address, Equals, still verifies), private keys raw/hex/amino; NewPublicKeyBz/NewPrivateKeyBz pick the type by length and refuse other lengths. AddSignature by key and out-of-order AddSignatureByIndex are recorded, not judged. The reference verifier is consulted on the own signature, on every variant the real code accepts, and on the first and every 4th rejected variant. Non-trivial = own signature accepted by real code and reference AND at least one variant rejected by both; distinct = digest of key material and message.")
 	r.Assume("ed25519 / ECDSA forgery by a random single-byte change has negligible probability, so such a variant verifying is reported as a violation")
 	ev.ForEach(n, workers(), func(i int) {
 		if r.Only != "" && r.Only != "*" && r.Only != fmt.Sprint(i) {
